@@ -10,7 +10,8 @@ From V.lib Require Import Base.
 From V.c05 Require Import C05Model C05FragModel C05CodecModel.
 From V.c12 Require C12Model.
 From V.c02 Require Import C02AggModel C02AggSizeProofs C02AggOptProofs C02AggFragProofs C02AggFileProofs
-  C02AggPureProofs C02AggC12Proofs C02AggC05Proofs C02AggScanProofs C02AggSencModel C02AggSencProofs C02AggExamples.
+  C02AggPureProofs C02AggC12Proofs C02AggC05Proofs C02AggScanProofs C02AggSencModel C02AggSencProofs C02AggExamples
+  C02AggCapModel C02AggCapProofs C02AggSencDecProofs C02AggProgProofs.
 
 (* ---- bytes written = Size() afterwards = sum of the box lengths; every top-level box header is right;
         Size() beforehand is the same when trun optimisation is off; well-formedness is kept *)
@@ -269,6 +270,101 @@ Theorem C02_senc_flag_refuted : exists s n n',
 Proof. exact senc_flag_refuted. Qed.
 Print Assumptions C02_senc_flag_refuted.
 
+(* ---- EncodeSW into a bits.FixedSliceWriter of a given capacity (C02AggCapModel: the remaining room is threaded
+        through the boxes; a box that does not fit is an error).  cap_independent: a success with ANY capacity is the
+        success of Encode (same state, same boxes), wrote exactly Size() bytes (Size() taken afterwards) and left
+        capacity - Size() room; and EVERY capacity >= Size(), the exact one included, gives the same state and boxes.
+        False for an encoder that writes more than Size() (C02_encode_sw_capacity_refuted). *)
+Theorem C02_encode_sw_capacity_independent : forall fr, afrag_wf fr = true ->
+  forall room fr' boxes rest, afrag_encode_sw room fr = (fr', Ok (boxes, rest)) ->
+    afrag_encode fr = (fr', Ok boxes) /\ lens boxes = afrag_size fr' /\ room = rest + afrag_size fr' /\
+    forall room2, afrag_size fr' <= room2 -> afrag_encode_sw room2 fr = (fr', Ok (boxes, room2 - afrag_size fr')).
+Proof. exact fragment_capacity. Qed.
+Print Assumptions C02_encode_sw_capacity_independent.
+
+Theorem C02_encode_sw_capacity_segment : forall s, aseg_wf s = true ->
+  cap_independent aseg_size aseg_encode aseg_encode_sw s.
+Proof. exact segment_capacity. Qed.
+Print Assumptions C02_encode_sw_capacity_segment.
+
+Theorem C02_encode_sw_capacity_init : forall i, obs_wf i = true ->
+  cap_independent ainit_size (fun i => (i, ainit_encode i)) (fun room i => (i, ainit_encode_sw room i)) i.
+Proof. exact init_capacity. Qed.
+Print Assumptions C02_encode_sw_capacity_init.
+
+Theorem C02_encode_sw_capacity_file : forall f, afile_wf f = true ->
+  cap_independent afile_size afile_encode afile_encode_sw f.
+Proof. exact file_capacity. Qed.
+Print Assumptions C02_encode_sw_capacity_file.
+
+(* and when Encode succeeds, EncodeSW into Size() bytes or more succeeds with the same outcome *)
+Theorem C02_encode_sw_capacity_complete : forall f f' boxes room,
+  afile_encode f = (f', Ok boxes) -> afile_wf f = true -> afile_size f' <= room ->
+  afile_encode_sw room f = (f', Ok (boxes, room - afile_size f')).
+Proof. exact file_capacity_complete. Qed.
+Print Assumptions C02_encode_sw_capacity_complete.
+
+Theorem C02_encode_sw_capacity_refuted :
+  ob_wf ob_over = false /\ ainit_size [ob_over] = 12 /\
+  ainit_encode_sw 12 [ob_over] = Err /\
+  exists boxes rest, ainit_encode_sw (12 + 64) [ob_over] = Ok (boxes, rest) /\ lens boxes = 16 /\ rest = 60.
+Proof. exact capacity_refuted. Qed.
+Print Assumptions C02_encode_sw_capacity_refuted.
+
+(* ---- SencBox as the decoders leave it.  `decoded hsize hlen payload s`: DecodeSenc / DecodeSencSR accept the box
+        (header size field hsize, header length hlen, payload) and leave s.  Such a box - parsed or not, also with
+        sample_count 0 and bytes after it since 954ff09 - writes exactly Size() bytes with a correct size field on
+        both paths and is not changed by Encode / EncodeSW / Info. *)
+Theorem C02_senc_decoded : forall hsize hlen payload s, decoded hsize hlen payload s ->
+  senc_size s = Ok (sn_read s) /\
+  ((TWO32 <=? sn_read s) = true /\ snd (senc_encode_w s) = Err /\ snd (senc_encode_sw s) = Err
+   \/ fst (senc_encode_w s) = s /\ fst (senc_encode_sw s) = s /\
+      senc_written (snd (senc_encode_w s)) (sn_read s) /\ snd (senc_encode_sw s) = snd (senc_encode_w s)) /\
+  senc_info s = Ok s.
+Proof. exact senc_decoded_exact. Qed.
+Print Assumptions C02_senc_decoded.
+
+(* findings C02-K1 / K2 / K4 (the encoder before 954ff09): Size() 20, 16 bytes written *)
+Theorem C02_senc_zero_pinned_refuted : exists hsize hlen payload s b,
+  decoded hsize hlen payload s /\ senc_size s = Ok 20 /\
+  (do p <- senc_all_gen false s; Ok (snd p)) = Ok b /\ lenN b = 16.
+Proof. exact senc_zero_pinned_refuted. Qed.
+Print Assumptions C02_senc_zero_pinned_refuted.
+
+(* after the second decoding phase (ParseReadBox with any perSampleIVSize byte, success): Size() is still the
+   remembered size, the encoders write calcSize() bytes - never more - under a size field that says Size(); the two
+   agree EXACTLY when senc_parse_exact: the sub-sample flag is set (that path refuses left-over bytes) or the IVs
+   fill the data *)
+Theorem C02_senc_parsed : forall hsize hlen payload s piv0 s',
+  decoded hsize hlen payload s -> piv0 < 256 -> senc_parse s piv0 = (s', Ok tt) -> 16 + lenN (sn_raw s') < TWO32 ->
+  exists b, senc_encode_w s' = (s', Ok b) /\ senc_encode_sw s' = (s', Ok b) /\
+    senc_size s' = Ok (16 + lenN (sn_raw s')) /\ firstn 4 b = be32 (16 + lenN (sn_raw s')) /\
+    lenN b <= 16 + lenN (sn_raw s') /\
+    (lenN b = 16 + lenN (sn_raw s') <-> senc_parse_exact s' = true).
+Proof. exact senc_parsed_exact. Qed.
+Print Assumptions C02_senc_parsed.
+
+(* finding C02-K5: without the guard, Size() 33 and 32 bytes written *)
+Theorem C02_senc_parse_trailing_refuted : exists hsize hlen payload s s' b,
+  decoded hsize hlen payload s /\ senc_parse s 0 = (s', Ok tt) /\ senc_parse_exact s' = false /\
+  senc_size s' = Ok 33 /\ senc_encode_w s' = (s', Ok b) /\ lenN b = 32.
+Proof. exact senc_parse_trailing_refuted. Qed.
+Print Assumptions C02_senc_parse_trailing_refuted.
+
+(* ---- progressive (non-fragmented) files and box-tree mode: one box per child, in order; the state afterwards
+        differs in mdat.LargeSize only (moov and its stco / co64 are written as they are); every box has the length
+        Size() reports afterwards; the file position at which each mdat payload begins, computed from Size() /
+        HeaderSize(), is where it begins in the output; a file whose mdat boxes are settled is not changed at all *)
+Theorem C02_file_progressive : forall f f' boxes,
+  afile_seg_mode f = false -> afile_encode f = (f', Ok boxes) -> afile_wf f = true ->
+  f' = afile_with f (fl_segs f) (map fc_touch (fl_children f)) /\
+  Forall2 child_box (fl_children f') boxes /\
+  map (fun b => lenN b) boxes = map fc_size (fl_children f') /\
+  out_payload_starts 0 (fl_children f') boxes = payload_starts 0 (fl_children f') /\
+  (Forall (fun c => fc_touch c = c) (fl_children f) -> f' = f /\ payload_starts 0 (fl_children f') = payload_starts 0 (fl_children f)).
+Proof. exact file_progressive. Qed.
+Print Assumptions C02_file_progressive.
+
 (* ---- the hypotheses are satisfiable by non-trivial values *)
 (* three samples, 8-byte IVs, sub-samples on the second one only: built_ok, 16 + 3*8 + 3*2 + 6 = 52 bytes *)
 Example C02_ex_senc :
@@ -303,3 +399,22 @@ Example C02_ex_history :
   exists b, fst (run_hist afrag_step (ex_frag true) [OpSize; OpEncode; OpSize; OpInfo; OpEncodeSW; OpEncode; OpSize]) =
             [OutSize 147; OutBytes b; OutSize 135; OutInfo; OutBytes b; OutBytes b; OutSize 135].
 Proof. eexists. vm_compute. reflexivity. Qed.
+
+(* a decoded senc with two samples, 8-byte IVs and sub-samples, parsed without knowing the IV size *)
+Example C02_ex_senc_parsed : exists s s',
+  decoded 48 8 ([0; 0; 0; 2; 0; 0; 0; 2] ++ [1;2;3;4;5;6;7;8; 0;1; 0;5; 0;0;0;9] ++ [1;2;3;4;5;6;7;9; 0;1; 0;7; 0;0;1;0]) s /\
+  senc_parse s 0 = (s', Ok tt) /\ senc_parse_exact s' = true /\ sn_ivsize s' = 8 /\ senc_size s' = Ok 48 /\
+  exists b, senc_encode_w s' = (s', Ok b) /\ lenN b = 48.
+Proof. exact senc_parsed_example. Qed.
+
+(* ftyp, moov, mdat: the payload begins at 8 + 16 + 8 *)
+Example C02_ex_progressive : afile_wf ex_prog = true /\ afile_seg_mode ex_prog = false /\
+  exists boxes, afile_encode ex_prog = (ex_prog, Ok boxes) /\ payload_starts 0 (fl_children ex_prog) = [32] /\
+    out_payload_starts 0 (fl_children ex_prog) boxes = [32].
+Proof. exact ex_prog_ok. Qed.
+
+(* a fragment encoded into a writer of exactly Size() bytes, and of 64 more *)
+Example C02_ex_capacity :
+  exists fr' boxes, afrag_encode_sw 135 (ex_frag true) = (fr', Ok (boxes, 0)) /\
+                    afrag_encode_sw (135 + 64) (ex_frag true) = (fr', Ok (boxes, 64)).
+Proof. eexists; eexists. split; vm_compute; reflexivity. Qed.
